@@ -1,7 +1,7 @@
 """C18 — single authority per store (structural clauses)."""
 import re
 
-from ..core import CheckError, Site, edge_implies, op_const, op_place, switches
+from ..core import sole_target, CheckError, Site, edge_implies, op_const, op_place, switches
 from ..effects import site_effects
 from ..prov import reads_locals, sources
 
@@ -55,22 +55,38 @@ def run(ctx):
     # ---------------------------------------------------------------- C18.7
     ctx.rule('C18.7', 'only the authority module touches the authority files: every rename / remove / write whose path comes from authority_lock_path or authority_meta_path sits inside ripd::local_authority (try_acquire, write_meta, the two guarded cleanups C18.2 audits, release). A client or any other module that deletes or rewrites lock.json / meta.json does so without the liveness and identity checks, and can take the files of a live authority.')
     n7in = 0
+    AUTHP = r'authority_(lock|meta)_path$'
+
+    def from_authority_path(fn, op):
+        return sorted({x[1].rsplit('::', 1)[-1] for x in sources(fn, op) if x[0] == 'call' and re.search(AUTHP, x[1])})
     for p, f in sorted(P.fns.items()):
-        if f.crate not in ('ripd', 'rip') or not f.calls(r'authority_(lock|meta)_path$'):
+        if f.crate not in ('ripd', 'rip'):
             continue
+        inside = p.startswith(LA)
         for s in f.sites():
             if not (site_effects(s) & {'FsWrite'}):
                 continue
-            hit = sorted({x[1].rsplit('::', 1)[-1] for a in s.args[:2] for x in sources(f, a) if x[0] == 'call' and re.search(r'authority_(lock|meta)_path$', x[1])})
-            if not hit:
-                continue
-            inside = p.startswith(LA)
             if inside:
+                # the module's own mutations (directly or through its private helpers: rename_if_present(from, to))
                 n7in += 1
                 ctx.touch(f)
-            else:
-                ctx.ob('C18.7', f, 'authority-files-owned:' + s.name, False, '%s on %s OUTSIDE ripd::local_authority: the file of a (possibly live) authority is changed without the pid-liveness / identity checks of the guarded cleanup' % (s.callee.rsplit('::', 1)[-1], '/'.join(hit)), line=s.line)
-    ctx.floor('C18.7', 'mutations of lock.json / meta.json inside ripd::local_authority', n7in, 6)
+                continue
+            hit = sorted({h for a in s.args[:2] for h in from_authority_path(f, a)})
+            where = (f, s)
+            if not hit:
+                # a path handed in as a parameter: look at what the callers pass
+                for a in s.args[:2]:
+                    r_ = f.root_local(a, through_calls=(r'::as_ref$', r'::deref$', r'::as_path$', r'::borrow$'))
+                    if r_ is not None and 1 <= r_ <= f.argc and '{closure' not in p:
+                        for c in P.callers('^' + re.escape(p) + '$'):
+                            if c.fn.path.startswith(LA) or r_ - 1 >= len(c.args):
+                                continue
+                            h2 = from_authority_path(c.fn, c.args[r_ - 1])
+                            if h2:
+                                hit, where = h2, (c.fn, c)
+            if hit:
+                ctx.ob('C18.7', where[0], 'authority-files-owned:' + s.name, False, '%s on %s OUTSIDE ripd::local_authority: the file of a (possibly live) authority is changed without the pid-liveness / identity checks of the guarded cleanup' % (s.callee.rsplit('::', 1)[-1], '/'.join(hit)), line=where[1].line)
+    ctx.floor('C18.7', 'file mutations inside ripd::local_authority', n7in, 6)
     ctx.ob('C18.7', 'workspace', 'authority-files-owned', True, '%d mutation site(s) of the authority files, all inside ripd::local_authority' % n7in)
 
     # ---------------------------------------------------------------- C18.2
@@ -81,8 +97,28 @@ def run(ctx):
     if not dead:
         raise CheckError('C18.2: PidLiveness::Dead missing')
     dead = str(dead[0])
-    sites = P.callers(r'local_authority::try_cleanup_stale_authority_files$')
-    ctx.floor('C18.2', 'stale-cleanup call sites', len(sites), 3)
+    sites0 = P.callers(r'local_authority::try_cleanup_stale_authority_files$')
+    ctx.floor('C18.2', 'stale-cleanup call sites', len(sites0), 3)
+    # a cleanup call that sits in a small helper ("cleanup_if_owner_dead(dir, liveness, pid, ..)") is judged where the
+    # helper is called: the helper is spliced into each caller, so the liveness call, the Dead edge and the pid are
+    # seen in one body
+    from ..inline import inline_calls as _inl2
+    sites = []
+    for s in sites0:
+        if s.fn.calls(r'local_authority::pid_liveness$') or s.fn.path.startswith(LA):
+            sites.append(s)
+            continue
+        callers = [c for c in P.callers('^' + re.escape(s.fn.path) + '$') if c.fn.crate == s.fn.crate]
+        if not callers:
+            sites.append(s)
+            continue
+        seen_f = set()
+        for c in callers:
+            if c.fn.path in seen_f:
+                continue
+            seen_f.add(c.fn.path)
+            F = _inl2(P, c.fn, lambda body, callee, hp=s.fn.path: callee == hp, depth=1, note=ctx.note)
+            sites += [x for x in F.calls(r'local_authority::try_cleanup_stale_authority_files$')]
     for s in sites:
         f = s.fn
         ok = False
@@ -97,12 +133,16 @@ def run(ctx):
             for (bi, on, ts, els) in switches(f):
                 o = f.origin(on)
                 if o[0] == 'rv' and o[1]['k'] == 'discr' and res in reads_locals(f, {'c': o[1]['pl']}) and dead in ts:
-                    if edge_implies(f, bi, ts[dead], s.bb):
+                    # the Dead value alone must lead there (`Dead | Unknown => cleanup` shares one edge)
+                    if sole_target(ts, els, dead) is not None and edge_implies(f, bi, ts[dead], s.bb):
                         ok = True
             if not ok:
                 why = 'the cleanup is reachable without the Dead edge of the liveness test'
         ctx.ob('C18.2', f, 'cleanup-only-when-dead', ok, 'stale cleanup %s' % ('runs only on the Dead edge of pid_liveness(pid) for the pid it passes' if ok else 'is not guarded: ' + why), line=s.line)
-    cl = P.fn(LA + 'try_cleanup_stale_authority_files')
+    from ..inline import contains as _contains
+    _wren = _contains(rx_calls=r'^std::fs::(rename|remove_file)$')
+    # private helpers of the module that do the renaming (`rename_if_present(from, to, ..)`) are spliced in
+    cl = _inl2(P, P.fn(LA + 'try_cleanup_stale_authority_files'), lambda body, callee: callee.startswith(LA) and not re.search(r'::(read_authority_\w+|authority_\w+_path|now_ms|pid_liveness)$', callee) and _wren(body, callee), depth=2, note=ctx.note)
     ctx.touch(cl)
     ren = cl.calls(r'^std::fs::rename$')
     reads = cl.calls(r'local_authority::read_authority_lock_record$')
@@ -110,6 +150,7 @@ def run(ctx):
     if not ren or not pid_param:
         raise CheckError('C18.2: cleanup has no rename / expected_pid')
     lock_ren = [r for r in ren if any(x[0] == 'call' and x[1].endswith('authority_lock_path') for x in sources(cl, r.args[0]))]
+    ctx.floor('C18.2', 'renames of lock.json in the stale cleanup', len(lock_ren), 1)
     eq_edges = []
     for (bi, on, ts, els) in switches(cl):
         o = cl.origin(on)
@@ -140,7 +181,7 @@ def run(ctx):
             if sw and f.edge_dom(sw[0], sw[2], s.bb):
                 guarded = True
         ctx.ob('C18.2', f, 'corrupt-cleanup-after-grace', elapsed and guarded, 'corrupt-lock cleanup is reachable only behind the elapsed-time test', line=s.line)
-    cc = P.fn(LA + 'try_cleanup_corrupt_lock_file')
+    cc = _inl2(P, P.fn(LA + 'try_cleanup_corrupt_lock_file'), lambda body, callee: callee.startswith(LA) and not re.search(r'::(read_authority_\w+|authority_\w+_path|now_ms|pid_liveness)$', callee) and _wren(body, callee), depth=2, note=ctx.note)
     ctx.touch(cc)
     ex = [e for e in cc.calls(r'^std::path::Path::exists$') if any(x[0] == 'call' and x[1].endswith('authority_meta_path') for x in sources(cc, e.args[0]))]
     okm = False
